@@ -82,6 +82,11 @@ let compare_op tbl what (f, c) op obs : string list =
          add (Printf.sprintf "kind=replay %s implementation events replay to [%s], implementation content is [%s]" what (str_ids (ids_of_cache cr)) (str_ids iids)));
     if before = iids && ievs <> [] then
       add (Printf.sprintf "kind=minimal %s nothing changed but events=[%s]" what (str_evs ievs));
+    (* an input that changes nothing by the proved semantics (a redelivered or
+       stale version, a delete of an unknown key, a rejected unknown object, an
+       unchanged relist) emits no event at all *)
+    if mevs = [] && before = mids && ievs <> [] then
+      add (Printf.sprintf "kind=spurious %s an input that changes nothing (before=[%s]) made the implementation emit [%s]" what (str_ids before) (str_evs ievs));
     List.rev !ms
 
 let cmd_cache f path alts =
